@@ -7,6 +7,7 @@
 From Coq Require Import NArith List Bool Lia.
 Require Import SDS.Model.Mach SDS.Model.Bits SDS.Model.Raw SDS.Model.IntVec SDS.Model.BitVec SDS.Model.Ser.
 Require Import SDS.gen.Consts SDS.Spec.Stream SDS.Proofs.SerProof SDS.Proofs.SerTypes SDS.Proofs.SerSupports SDS.Proofs.SerMain.
+Require Import SDS.Model.Writer SDS.Model.WriterFail SDS.Proofs.WriterProof SDS.Proofs.WriterFailProof.
 Import ListNotations.
 Open Scope list_scope.
 Open Scope N_scope.
@@ -107,9 +108,198 @@ Example C14_skip_before_fix_refuted :
                 skip_option_before_fix m (firstn k s) = IoOk (tt, []).
 Proof. exists Debug, (c_enc (option_codec vec_u64_codec) (Some [1; 2; 3])), 17%nat. repeat split. vm_compute. lia. Qed.
 
-(* NOT in this round (listed under "partial" in tools/props.d/C14.json): buffered file writers under a
-   persistent file-size limit (close = IoOk -> file complete), which needs the writer model of C12;
-   mapped views of truncated files (C13). *)
+(* ---------------------------------------------------------------- buffered file writers over a failing file
+
+   Vocabulary (Model/WriterFail.v, on top of Model/Writer.v of property C12). The sink behind the file handle is
+   [Limit L] - the file cannot grow beyond L bytes (RLIMIT_FSIZE, quota): write_all of k elements at element
+   position p succeeds iff k = 0 or 8*(p+k) <= L, otherwise the elements that fit are written and the error EFBIG
+   comes back - or [Full] - every non-empty write fails with ENOSPC (/dev/full). The limit is persistent.
+   An operation ends as [WOk w] (returned normally), [WErr e w] (returned Err(e), writer left in state w) or
+   [WPanic k w] (panicked, state w left behind). wf_run applies the pushes one by one until one does not return
+   normally and also gives the number of pushes that did. The hypothesis "w_with_buf_len .. = Ok w0" only says
+   that the rounding of the requested buffer size does not overflow (see C12).
+
+   C14_writer_limit: for both build modes, every sink, every parent header, every requested buffer size and every
+   sequence of bit pushes and integer pushes of width <= 64, a session create - pushes - close_with_header ends
+   in exactly one of these ways, all but the last being a reported failure:
+     (1) the constructor returns the sink's error (the 16-byte placeholder header does not fit);
+     (2) push number i panics in `self.flush(FlushMode::Safe).unwrap()` (the documented panic); the writer it
+         leaves behind (after catch_unwind) answers every later close with the error again;
+     (3) every push returns and close returns the sink's error; the file stays open and every later close
+         returns the error again;
+     (4) close returns Ok: then the file is EXACTLY the header followed by the serialization of the vector the same
+         pushes build in memory, the file is closed, and that complete file is within the limit (so with a limit
+         below the complete size, and with /dev/full, (4) is impossible: the failure is always reported).
+   Never: Ok from close with an incomplete file. *)
+Theorem C14_writer_limit : forall m s h0 h1 buf_len w0 ops,
+  w_with_buf_len m h0 buf_len = Ok w0 -> length h1 = length h0 ->
+  (forall v width, In (PInt v width) ops -> width <= 64) ->
+  exists c, wf_with_buf_len m s h0 buf_len = Ok c /\
+  match c with
+  | WErr e _ => e = fs_err s
+  | WPanic _ _ => False
+  | WOk w0' => w0' = w0 /\
+     exists i r, wf_run s w0 ops 0 = Ok (i, r) /\
+     match r with
+     | WPanic k wp => k = PUnwrap /\ i < lenN ops /\
+          forall h, wf_close_with_header s wp h = Ok (WErr (fs_err s) wp)
+     | WErr _ _ => False
+     | WOk w1 => i = lenN ops /\
+          exists c2, wf_close_with_header s w1 h1 = Ok c2 /\
+          match c2 with
+          | WErr e we => e = fs_err s /\ w_is_open we = true /\
+               forall h, wf_close_with_header s we h = Ok (WErr (fs_err s) we)
+          | WPanic _ _ => False
+          | WOk w2 => exists mem, mem_run raw_new ops = Ok mem /\ wdisk w2 = h1 ++ raw_serialize mem /\
+               w_is_open w2 = false /\ wlen w2 = ops_bits ops /\
+               match s with Limit L => 8 * lenN (wdisk w2) <= L | Full => False end
+          end
+     end
+  end.
+Proof. exact wfp_writer_limit_raw. Qed.
+Print Assumptions C14_writer_limit.
+
+(* the same for RawVectorWriter::new (default buffer size from the source) *)
+Theorem C14_writer_limit_default : forall s h0 h1 ops,
+  length h1 = length h0 -> (forall v width, In (PInt v width) ops -> width <= 64) ->
+  exists c, wf_new s h0 = Ok c /\
+  match c with
+  | WErr e _ => e = fs_err s
+  | WPanic _ _ => False
+  | WOk w0' => w0' = w_new h0 /\
+     exists i r, wf_run s (w_new h0) ops 0 = Ok (i, r) /\
+     match r with
+     | WPanic k wp => k = PUnwrap /\ i < lenN ops /\
+          forall h, wf_close_with_header s wp h = Ok (WErr (fs_err s) wp)
+     | WErr _ _ => False
+     | WOk w1 => i = lenN ops /\
+          exists c2, wf_close_with_header s w1 h1 = Ok c2 /\
+          match c2 with
+          | WErr e we => e = fs_err s /\ w_is_open we = true /\
+               forall h, wf_close_with_header s we h = Ok (WErr (fs_err s) we)
+          | WPanic _ _ => False
+          | WOk w2 => exists mem, mem_run raw_new ops = Ok mem /\ wdisk w2 = h1 ++ raw_serialize mem /\
+               w_is_open w2 = false /\ wlen w2 = ops_bits ops /\
+               match s with Limit L => 8 * lenN (wdisk w2) <= L | Full => False end
+          end
+     end
+  end.
+Proof. exact wfp_writer_limit_raw_new. Qed.
+Print Assumptions C14_writer_limit_default.
+
+(* conversely nothing fails when the complete file (header, 2 elements of the raw header, the words) is within
+   the limit: a limit does not make the writer fail early *)
+Theorem C14_writer_fits : forall m L h0 h1 buf_len w0 ops,
+  w_with_buf_len m h0 buf_len = Ok w0 -> length h1 = length h0 ->
+  (forall v width, In (PInt v width) ops -> width <= 64) ->
+  8 * (lenN h0 + 2 + bits_to_words (ops_bits ops)) <= L ->
+  exists w1 w2 mem, wf_with_buf_len m (Limit L) h0 buf_len = Ok (WOk w0) /\
+    wf_run (Limit L) w0 ops 0 = Ok (lenN ops, WOk w1) /\
+    wf_close_with_header (Limit L) w1 h1 = Ok (WOk w2) /\
+    mem_run raw_new ops = Ok mem /\ wdisk w2 = h1 ++ raw_serialize mem /\ w_is_open w2 = false.
+Proof. exact wfp_writer_fits_raw. Qed.
+Print Assumptions C14_writer_fits.
+
+(* on /dev/full no writer comes into being at all *)
+Theorem C14_writer_full : forall m h0 buf_len w0,
+  w_with_buf_len m h0 buf_len = Ok w0 -> exists w', wf_with_buf_len m Full h0 buf_len = Ok (WErr ENOSPC w').
+Proof. exact wfp_full_never_created. Qed.
+Print Assumptions C14_writer_full.
+
+(* IntVectorWriter::with_buf_len (every width 1..64, every buffer size in items for which the creation returns,
+   every list of values pushed one by one): the same four ways; on success the file is iv_serialize of the
+   IntVector built by the same pushes. A panicking push leaves len() one short of the inner writer's count. *)
+Theorem C14_writer_limit_int : forall m s width buf_len iw0 xs,
+  iw_with_buf_len m width buf_len = Some (Ok iw0) ->
+  exists c, wf_iw_with_buf_len m s width buf_len = Some (Ok c) /\
+  match c with
+  | WErr e _ => e = fs_err s
+  | WPanic _ _ => False
+  | WOk iw0' => iw0' = iw0 /\
+     exists i r, wf_iw_extend s iw0 xs 0 = Ok (i, r) /\
+     match r with
+     | WPanic k iwp => k = PUnwrap /\ i < lenN xs /\ wf_iw_close s iwp = Ok (WErr (fs_err s) iwp)
+     | WErr _ _ => False
+     | WOk iw1 => i = lenN xs /\
+          exists c2, wf_iw_close s iw1 = Ok c2 /\
+          match c2 with
+          | WErr e iwe => e = fs_err s /\ w_is_open (iww iwe) = true /\
+               wf_iw_close s iwe = Ok (WErr (fs_err s) iwe)
+          | WPanic _ _ => False
+          | WOk iw2 => exists v0 v, iv_new width = Some v0 /\ iv_push_all v0 xs = Ok v /\
+               wdisk (iww iw2) = iv_serialize v /\ w_is_open (iww iw2) = false /\ iwlen iw2 = lenN xs /\
+               match s with Limit L => 8 * lenN (wdisk (iww iw2)) <= L | Full => False end
+          end
+     end
+  end.
+Proof. exact wfp_writer_limit_int. Qed.
+Print Assumptions C14_writer_limit_int.
+
+Theorem C14_writer_limit_int_default : forall s width iw0 xs,
+  iw_new width = Some iw0 ->
+  exists c, wf_iw_new s width = Some (Ok c) /\
+  match c with
+  | WErr e _ => e = fs_err s
+  | WPanic _ _ => False
+  | WOk iw0' => iw0' = iw0 /\
+     exists i r, wf_iw_extend s iw0 xs 0 = Ok (i, r) /\
+     match r with
+     | WPanic k iwp => k = PUnwrap /\ i < lenN xs /\ wf_iw_close s iwp = Ok (WErr (fs_err s) iwp)
+     | WErr _ _ => False
+     | WOk iw1 => i = lenN xs /\
+          exists c2, wf_iw_close s iw1 = Ok c2 /\
+          match c2 with
+          | WErr e iwe => e = fs_err s /\ w_is_open (iww iwe) = true /\
+               wf_iw_close s iwe = Ok (WErr (fs_err s) iwe)
+          | WPanic _ _ => False
+          | WOk iw2 => exists v0 v, iv_new width = Some v0 /\ iv_push_all v0 xs = Ok v /\
+               wdisk (iww iw2) = iv_serialize v /\ w_is_open (iww iw2) = false /\ iwlen iw2 = lenN xs /\
+               match s with Limit L => 8 * lenN (wdisk (iww iw2)) <= L | Full => False end
+          end
+     end
+  end.
+Proof. exact wfp_writer_limit_int_new. Qed.
+Print Assumptions C14_writer_limit_int_default.
+
+Theorem C14_writer_fits_int : forall m L width buf_len iw0 xs,
+  iw_with_buf_len m width buf_len = Some (Ok iw0) ->
+  8 * (4 + bits_to_words (lenN xs * width)) <= L ->
+  exists iw1 iw2 v0 v, wf_iw_with_buf_len m (Limit L) width buf_len = Some (Ok (WOk iw0)) /\
+    wf_iw_extend (Limit L) iw0 xs 0 = Ok (lenN xs, WOk iw1) /\ wf_iw_close (Limit L) iw1 = Ok (WOk iw2) /\
+    iv_new width = Some v0 /\ iv_push_all v0 xs = Ok v /\
+    wdisk (iww iw2) = iv_serialize v /\ w_is_open (iww iw2) = false.
+Proof. exact wfp_writer_fits_int. Qed.
+Print Assumptions C14_writer_fits_int.
+
+(* A writer that goes out of scope WITHOUT close(): Drop runs `let _ = self.close();`. The documentation of both
+   writers says so: "When the writer goes out of scope, the internal buffer is flushed, the file is closed, and
+   all errors are ignored. Call close explicitly to handle the errors." This is not a violation of C14 (no
+   success is reported - nothing is reported), it is stated here so that the boundary is explicit:
+   a writer whose last write failed (open, non-empty buffer, no room for one more element) is dropped without
+   any effect and without any report, both for the raw writer and for the integer writer (whose Drop closes
+   twice: its own close, then the inner RawVectorWriter's close with an empty parent header). *)
+Theorem C14_writer_drop_silent : forall s w p,
+  wpos w = Some p -> rdata (wbuf w) <> [] -> fs_room s p = 0 -> wf_drop s w = Ok w.
+Proof. intros s w p H1 H2 H3. apply wfp_stuck_drop. exists p. auto. Qed.
+Theorem C14_writer_drop_silent_int : forall s iw p,
+  wpos (iww iw) = Some p -> rdata (wbuf (iww iw)) <> [] -> fs_room s p = 0 -> wf_iw_drop s iw = Ok iw.
+Proof. intros s iw p H1 H2 H3. apply wfp_stuck_iw_drop. exists p. auto. Qed.
+Print Assumptions C14_writer_drop_silent.
+Print Assumptions C14_writer_drop_silent_int.
+(* and a whole session in which NO call reports anything although the data is lost: limit 16 bytes, one 7-bit
+   push (stays in the buffer), drop. The file left behind is [0; 0] - a well-formed serialization of the EMPTY
+   vector - instead of [7; 1; 5]. Calling close() instead of dropping returns the error. *)
+Example C14_drop_swallows :
+  exists w0 w1 w2 mem,
+    wf_with_buf_len Debug (Limit 16) [] 64 = Ok (WOk w0) /\
+    wf_run (Limit 16) w0 [PInt 5 7] 0 = Ok (1, WOk w1) /\
+    wf_drop (Limit 16) w1 = Ok w2 /\
+    mem_run raw_new [PInt 5 7] = Ok mem /\ raw_serialize mem = [7; 1; 5] /\
+    wdisk w2 = [0; 0] /\
+    wf_close (Limit 16) w1 = Ok (WErr EFBIG w1).
+Proof. do 4 eexists. repeat (match goal with |- _ /\ _ => split end); vm_compute; reflexivity. Qed.
+
+(* mapped views of truncated files belong to C13. *)
 
 (* ---------------------------------------------------------------- non-vacuity *)
 
@@ -142,3 +332,41 @@ Proof. vm_compute. reflexivity. Qed.
 Example ex_sink : write_seq [le64 1; le64 2; [7; 7; 7]] (mksink [] 10 OtherErr)
   = (mksink [1; 0; 0; 0; 0; 0; 0; 0; 2; 0] 0 OtherErr, IoErr OtherErr).
 Proof. vm_compute. reflexivity. Qed.
+
+(* the four ways of C14_writer_limit all occur (RawVectorWriter, 64-bit buffer, three 64-bit pushes; the complete
+   file has 2 + 3 elements = 40 bytes) *)
+Example ex_writer_create_fails : exists w, wf_with_buf_len Debug (Limit 8) [] 64 = Ok (WErr EFBIG w) /\ wdisk w = [0].
+Proof. eexists. split; vm_compute; reflexivity. Qed.
+Example ex_writer_push_panics : exists w0 wp,
+  wf_with_buf_len Debug (Limit 24) [] 64 = Ok (WOk w0) /\
+  wf_run (Limit 24) w0 [PInt 1 64; PInt 2 64; PInt 3 64] 0 = Ok (1, WPanic PUnwrap wp) /\
+  wdisk wp = [0; 0; 1] /\ wf_close (Limit 24) wp = Ok (WErr EFBIG wp).
+Proof. do 2 eexists. repeat (match goal with |- _ /\ _ => split end); vm_compute; reflexivity. Qed.
+Example ex_writer_close_fails : exists w0 w1 we,
+  wf_with_buf_len Debug (Limit 32) [] 128 = Ok (WOk w0) /\
+  wf_run (Limit 32) w0 [PInt 1 64; PInt 2 64; PInt 3 64] 0 = Ok (3, WOk w1) /\
+  wf_close (Limit 32) w1 = Ok (WErr EFBIG we) /\ wdisk we = [0; 0; 1; 2] /\ w_is_open we = true.
+Proof. do 3 eexists. repeat (match goal with |- _ /\ _ => split end); vm_compute; reflexivity. Qed.
+Example ex_writer_complete : exists w0 w1 w2,
+  wf_with_buf_len Debug (Limit 40) [] 128 = Ok (WOk w0) /\
+  wf_run (Limit 40) w0 [PInt 1 64; PInt 2 64; PInt 3 64] 0 = Ok (3, WOk w1) /\
+  wf_close (Limit 40) w1 = Ok (WOk w2) /\ wdisk w2 = [192; 3; 1; 2; 3] /\ w_is_open w2 = false.
+Proof. do 3 eexists. repeat (match goal with |- _ /\ _ => split end); vm_compute; reflexivity. Qed.
+(* IntVectorWriter whose 32-byte placeholder header does not fit into 24 bytes: the constructor fails, and the Drop
+   of the half-made inner writer rewrites a 16-byte header [0; 0] over the start: the file left is [0; 0; 0] *)
+Example ex_int_writer_create_fails : exists iw,
+  wf_iw_with_buf_len Debug (Limit 24) 13 8 = Some (Ok (WErr EFBIG iw)) /\ wdisk (iww iw) = [0; 0; 0] /\
+  w_is_open (iww iw) = false.
+Proof. eexists. repeat (match goal with |- _ /\ _ => split end); vm_compute; reflexivity. Qed.
+(* OUTSIDE the quantifier of C14, which is about persistent limits, but worth recording (DESIGN.md section 7 lists it as
+   a non-finding): what a failed Safe flush leaves behind. Five 13-bit pushes into a 64-bit buffer under a 16-byte
+   limit: the fifth push flushes 64 bits, carries 1 bit over, the write fails and the push panics; the carried bit has
+   already been cut off the buffer and is not pushed back, while len() counts it. If the obstacle then goes away (here:
+   the same state closed under a limit of 1000 bytes), close() returns Ok and the file claims 65 bits in 2 words but
+   holds 1 word. A caller who catches the documented panic must not go on using the writer. *)
+Example ex_transient_failure_is_not_covered : exists w0 wp w2,
+  wf_with_buf_len Debug (Limit 16) [] 64 = Ok (WOk w0) /\
+  wf_run (Limit 16) w0 [PInt 1 13; PInt 2 13; PInt 3 13; PInt 4 13; PInt 8191 13] 0 = Ok (4, WPanic PUnwrap wp) /\
+  wlen wp = 65 /\ rlen (wbuf wp) = 64 /\
+  wf_close (Limit 1000) wp = Ok (WOk w2) /\ wdisk w2 = [65; 2; 18442242673306779649].
+Proof. do 3 eexists. repeat (match goal with |- _ /\ _ => split end); vm_compute; reflexivity. Qed.
